@@ -46,7 +46,10 @@ RULE = ("hand-written corpus + valid map requests of the shared generator (DAGs 
         "run_info.json between run and reload (deleted / ill-typed fields, another storage or version: error branches of "
         "RunInfo.load, nothing demanded by spec_ok); observed: load_outputs per output, RunInfo.load field-wise, inputs, "
         "defaults, load_xarray_dataset dims, folder listing, folder unchanged; non-trivial = a mapped output with >=2 axes, "
-        "a ':' axis or an internal axis; distinct by (specs, shapes, storage, fresh, persist)")
+        "a ':' axis or an internal axis; distinct by (specs, shapes, storage, fresh, persist); 1/8 of the requests are also run "
+        "as FOLDER RE-USE SEQUENCES in one process: earlier requests (the same pipeline with other input values, other "
+        "pipelines/shapes, or the same request followed by cleanup=False) are run into the same folder and reloaded, then "
+        "the request itself, then reloads in that interpreter and in a fresh one (xarray coordinate values of 1-D inputs observed)")
 ASSUMPTIONS = ["cloudpickle round-trips the values used (strings, lists, object ndarrays, dicts keyed by int tuples)",
                "JSON text layout is not modelled: `json` is the value json.load returns for what json.dump wrote",
                "the run folder is not moved between run and reload, and is given as an absolute normalised path",
@@ -140,10 +143,20 @@ def apply_mutation(folder, m):
 
 def emit_case(c) -> str:
     return ("{| c_funcs := %s; c_inputs := %s; c_internal := %s; c_user_int := %s; c_func_int := %s; c_storage := %s; "
-            "c_persist := %s; c_fresh := %s; c_xr := %s; c_mut := %s |}") % (
+            "c_persist := %s; c_fresh := %s; c_xr := %s; c_mut := %s; c_xr_coords := %s; c_prev := %s; c_cleanup := %s |}") % (
         clist([mapgen.func_lit(f) for f in c["funcs"]]), mapgen._env(c["inputs"]), mapgen.shapes_lit(c.get("internal")),
         clist([cstr(x) for x in c.get("user_int", [])]), clist([cstr(x) for x in c.get("func_int", [])]),
-        _storage_lit(c["st"]), cbool(c.get("persist", True)), cbool(c.get("fresh", False)), cstr(c.get("xr", "ok")), _mut_lit(c.get("mut")))
+        _storage_lit(c["st"]), cbool(c.get("persist", True)), cbool(c.get("fresh", False)), cstr(c.get("xr", "ok")), _mut_lit(c.get("mut")),
+        clist([cstr(x) for x in c.get("xr_coords", [])]), clist([_request_lit(q) for q in c.get("prev", [])]),
+        cbool(c.get("cleanup", True)))
+
+
+def _request_lit(q) -> str:
+    return ("{| q_funcs := %s; q_inputs := %s; q_internal := %s; q_user_int := %s; q_func_int := %s; q_storage := %s; "
+            "q_persist := %s |}") % (
+        clist([mapgen.func_lit(f) for f in q["funcs"]]), mapgen._env(q["inputs"]), mapgen.shapes_lit(q.get("internal")),
+        clist([cstr(x) for x in q.get("user_int", [])]), clist([cstr(x) for x in q.get("func_int", [])]),
+        _storage_lit(q["st"]), cbool(q.get("persist", True)))
 
 
 # ------------------------------------------------------------------ building / running the real pipeline
@@ -181,7 +194,8 @@ def _out_names(c):
 
 
 def _xr_reference(c):
-    """In-memory run (no folder) + pipefunc's own labelling of its results: 'ok' | exception class | None if the run fails."""
+    """In-memory run (no folder) + pipefunc's own labelling of its results: ('ok' | exception class, names of the 1-D root
+    inputs it turns into coordinates), or None if the run fails."""
     from pipefunc.map.xarray import xarray_dataset_from_results
 
     try:
@@ -192,10 +206,12 @@ def _xr_reference(c):
     except Exception:  # noqa: BLE001
         return None
     try:
-        xarray_dataset_from_results(inputs, r, p)
-        return "ok"
+        ds = xarray_dataset_from_results(inputs, r, p)
+        coords = sorted(n for n, v in c["inputs"] if isinstance(v, dict) and len(v["sh"]) == 1
+                        and n in ds.coords and ds[n].ndim == 1)
+        return "ok", coords
     except Exception as e:  # noqa: BLE001
-        return Err(e).name
+        return Err(e).name, []
 
 
 class _Spy:
@@ -220,7 +236,7 @@ class _Spy:
         self.cls.__post_init__ = self.orig
 
 
-def _parent_run(c, folder):
+def _parent_run(c, folder, cleanup=True):
     """Run the request into `folder`. Returns (obs of the run, results kept alive) or (Err, None)."""
     import pipefunc
 
@@ -233,8 +249,9 @@ def _parent_run(c, folder):
         try:
             with _Spy() as spy:
                 r = p.map(mapsym.map_inputs(c), run_folder=folder, internal_shapes=_internal_arg(c),
-                          storage=_storage_arg(c["st"]), persist_memory=c.get("persist", True), parallel=False)
-            ri = spy.seen[0]
+                          storage=_storage_arg(c["st"]), persist_memory=c.get("persist", True), parallel=False,
+                          cleanup=cleanup)
+            ri = spy.seen[-1]          # with cleanup=False the previous RunInfo is loaded (and constructed) first
             ran = [[[o, mapsym.arr_obs(r[o].output)] for o in _out_names(c)]] + c04_reload.info_obs(ri, folder, pipefunc.__version__)
             return [ran, c04_reload.listing(folder)], (r, p)
         except Exception as e:  # noqa: BLE001
@@ -273,15 +290,26 @@ def worker_run(items):
     for a fresh one.  Returns JSON-able [{"head":..., "tail":...}] and whether all manager processes are gone at the end."""
     out = []
     for c, folder in items:
-        head, keep = _parent_run(c, folder)
+        # folder re-use: earlier requests are run into the same folder and reloaded in this interpreter first
+        alive, head = [], None
+        for q in c.get("prev", []):
+            h, keep = _parent_run(q, folder)
+            alive.append(keep)
+            if isinstance(h, Err):
+                head = h
+                break
+            with contextlib.redirect_stdout(io.StringIO()):
+                c04_reload.reload_obs(folder, _out_names(q), [n for n, v in q["inputs"] if isinstance(v, dict)])
+        if head is None:
+            head, keep = _parent_run(c, folder, cleanup=c.get("cleanup", True))
         tail = None
         if not isinstance(head, Err):
             apply_mutation(folder, c.get("mut"))
         if not isinstance(head, Err) and not c.get("fresh"):
             with contextlib.redirect_stdout(io.StringIO()):
-                tail = c04_reload.two_loads(folder, _out_names(c))   # results (and their managers) still alive
+                tail = c04_reload.two_loads(folder, _out_names(c), c.get("xr_coords", []))   # results still alive
         out.append({"head": _encode(head), "tail": tail})
-        del keep
+        del keep, alive
     gc.collect()
     return out, _wait_no_managers()
 
@@ -336,13 +364,14 @@ def _run_batch(cases):
         if fresh:
             shards = _shards(fresh, WORKERS if len(fresh) >= 4 else 1)
             with ThreadPoolExecutor(max_workers=WORKERS) as ex:
-                results = list(ex.map(lambda sh: _spawn({"mode": "load", "folders": [[os.path.join(tmp, f"r{i}"), _out_names(cases[i])]
+                results = list(ex.map(lambda sh: _spawn({"mode": "load", "folders": [[os.path.join(tmp, f"r{i}"), _out_names(cases[i]),
+                                                                                      cases[i].get("xr_coords", [])]
                                                                                      for i in sh]}, len(sh)), shards))
             for sh, res in zip(shards, results):
                 for k, i in enumerate(sh):
                     tails[i] = {"__err__": "Timeout"} if res is None else res["results"][k]
         out = []
-        for head, tail in zip(heads, tails):
+        for c, head, tail in zip(cases, heads, tails):
             if isinstance(head, Err):
                 out.append(head)
                 continue
@@ -350,7 +379,8 @@ def _run_batch(cases):
             if isinstance(tail, Err):
                 out.append(tail)
                 continue
-            out.append(["ok", head + tail + [True]])   # last: model-side invariant flag (see Run_C04.run)
+            # last two: model-side invariant flag (see Run_C04.run), number of earlier runs into the folder
+            out.append(["ok", head + tail + [True, len(c.get("prev", []))]])
         return out
     finally:
         shutil.rmtree(tmp, ignore_errors=True)
@@ -456,7 +486,7 @@ def gen_case(rng):
         xr = _xr_reference(c)
         if xr is None:
             continue
-        c["xr"] = xr
+        c["xr"], c["xr_coords"] = xr
         c["st"] = _gen_storage(rng, c)
         while _manager_cost(c) > MAX_MANAGER_COST:      # every load_outputs call starts one manager process per
             c["st"] = _gen_storage(rng, c)               # shared_memory_dict array: keep those pipelines small
@@ -505,9 +535,50 @@ def gen_mutation(rng, c):
     return ["setin", rng.choice(["shapes", "shape_masks"]), key, rng.choice([None, 3])]
 
 
+REQ_KEYS = ["funcs", "inputs", "internal", "func_int", "user_int", "st", "persist"]
+
+
+def _request_of(c):
+    return json.loads(json.dumps({k: c.get(k) for k in REQ_KEYS}))
+
+
+def _other_values(c, tag):
+    """The same request with other input values (same shapes)."""
+    d = json.loads(json.dumps(c))
+    d["inputs"] = [[n, (dict(v, d=[x + tag for x in v["d"]]) if isinstance(v, dict) else v + tag)] for n, v in d["inputs"]]
+    return d
+
+
+def gen_sequences(rng, c):
+    """Folder re-use in one process: earlier requests are run into the same folder (and reloaded) before `c` is run.
+    Every variant is reloaded in the interpreter that ran the sequence and in a fresh one."""
+    kind = rng.choice(["values", "values", "other", "other", "values+other", "resume"])
+    base = json.loads(json.dumps(c))
+    base.pop("mut", None)
+    if kind == "resume" and any(fd.get("int") for fd in c["funcs"]):
+        kind = "values"       # cleanup=False is refused when a PipeFunc carries internal_shape (reported separately)
+    if kind == "resume":
+        base["prev"], base["cleanup"] = [_request_of(c)], False
+    elif kind == "values":
+        base["prev"] = [_request_of(_other_values(c, "~"))]
+    elif kind == "other":
+        base["prev"] = [_request_of(gen_case(rng))]
+    else:
+        base["prev"] = [_request_of(gen_case(rng)), _request_of(_other_values(c, "~"))]
+    base["seq"] = kind
+    out = []
+    for fresh in (False, True):
+        d = json.loads(json.dumps(base))
+        d["fresh"] = fresh
+        out.append(d)
+    return out
+
+
 def generate(rng, tier, mult):
-    n = (60 if tier == "quick" else 1500) * mult
+    n = (48 if tier == "quick" else 1200) * mult
     out = [gen_case(rng) for _ in range(n)]
+    for c in list(out[: max(1, n // 8)]):     # folder re-use sequences (two reload variants each)
+        out += gen_sequences(rng, c)
     for c in out[: max(1, n // 5)]:           # negative stream: the folder is edited before the reload
         c["mut"] = gen_mutation(rng, c)
     rng.shuffle(out)
@@ -530,7 +601,7 @@ def nontrivial_key(c):
     if not _nontrivial(c):
         return None
     return ([mapsym.spec_str(f.get("spec")) for f in c["funcs"]],
-            [v["sh"] if isinstance(v, dict) else 0 for _, v in c["inputs"]], c["st"], c.get("fresh"), c.get("persist"))
+            [v["sh"] if isinstance(v, dict) else 0 for _, v in c["inputs"]], c["st"], c.get("fresh"), c.get("persist"), c.get("seq"))
 
 
 def _kinds(c):
@@ -547,6 +618,7 @@ def distribution(c):
             "one_tuple_key": any(isinstance(k, list) and len(k) == 1 for k, _ in c["st"].get("dict", [])),
             "int_internal": bool(c.get("func_int") or c.get("user_int")), "nfuncs": len(c["funcs"]),
             "edited": (c["mut"][0] + ":" + c["mut"][1]) if c.get("mut") else "no",
+            "reuse": c.get("seq", "cleanup=False" if c.get("cleanup") is False else ("yes" if c.get("prev") else "no")),
             "internal_first": not _internal_after_mapped(c)}
 
 
@@ -574,7 +646,7 @@ def shrink(c):
         xr = _xr_reference(d)
         if xr is None:
             continue
-        d["xr"] = xr
+        d["xr"], d["xr_coords"] = xr
         out.append(d)
     if "dict" in c["st"]:
         for v in STORAGES:
